@@ -145,6 +145,19 @@ def cargo_build(build):
 
 
 DRIVER = os.path.join(LEAN, '.lake', 'build', 'bin', 'dcv-driver')
+DRIVER_RUN = [DRIVER]     # replaced by a private copy per run (see run_check)
+
+
+def private_copy(path, prop, name):
+    """binaries are copied out of the build trees while the build lock is held, so that another check that rebuilds them
+    concurrently cannot pull them from under a running correspondence phase"""
+    d = os.path.join(WORK, prop, 'bin')
+    os.makedirs(d, exist_ok=True)
+    dst = os.path.join(d, f'{name}-{os.getpid()}')
+    shutil.copy2(path, dst)
+    import atexit
+    atexit.register(lambda: os.path.exists(dst) and os.remove(dst))
+    return dst
 
 
 # ------------------------------------------------------------------------------------------------
@@ -165,7 +178,7 @@ def run_shard(prop, bin_path, cases, ids, timeout, workdir, tag):
     with open(os.path.join(workdir, f'{tag}.trace'), 'w') as fh:
         fh.write(trace)
     try:
-        d = subprocess.run([DRIVER, prop], input=trace, capture_output=True, text=True, timeout=timeout * 4 + 60)
+        d = subprocess.run([DRIVER_RUN[0], prop], input=trace, capture_output=True, text=True, timeout=timeout * 4 + 60)
     except subprocess.TimeoutExpired:
         return None, 0, 'driver-hang'
     if d.returncode != 0:
@@ -361,7 +374,9 @@ def run_check(mod, tier, seed, replay=None):
             if not okb:
                 build_logs[b] = logb[-1500:]
             else:
-                bins[b] = path
+                bins[b] = private_copy(path, prop, f'dcv-harness-{b}')
+        if ok_drv:
+            DRIVER_RUN[0] = private_copy(DRIVER, prop, 'dcv-driver')
 
     discharged = []
     for n, _ in theorems:
